@@ -84,6 +84,12 @@ WF(str, i) ==
          /\ \A k \in 1..(n - 1) : Cont(str[i + k])
          /\ LET cp == CodePoint(str, i, n) IN cp >= MinCp(n) /\ Scalar(cp)
          /\ WF(str, i + n)
+\* lead/continuation structure only (no range checks): separates "malformed" from "range-rejected"
+RECURSIVE Shaped(_, _)
+Shaped(str, i) ==
+  IF i > Len(str) THEN TRUE
+  ELSE LET n == SeqLen(str[i]) IN
+         n > 0 /\ i + n - 1 <= Len(str) /\ (\A k \in 1..(n - 1) : Cont(str[i + k])) /\ Shaped(str, i + n)
 \* str::is_char_boundary: the ends, and every index whose byte is not a continuation byte
 NonContBoundaries(str) == {0, Len(str)} \cup {i \in 1..(Len(str) - 1) : ~Cont(str[i + 1])}
 
@@ -108,5 +114,6 @@ C20_BoundariesAreCharStarts == (q = "S") => bnd = NonContBoundaries(s)
 C20_SplitClosed == (q = "S") =>
     \A i \in 0..Len(s) : (i \in bnd) <=> (WF(SubSeq(s, 1, i), 1) /\ WF(SubSeq(s, i + 1, Len(s)), 1))
 
-EmitVec == ~Emit \/ PrintT(<<"VEC", ToJson([s |-> s, v |-> (q = "S"), b |-> (IF q = "S" THEN bnd ELSE {})])>>)
+EmitVec == ~Emit \/ PrintT(<<"VEC", ToJson([s |-> s, v |-> (q = "S"), b |-> (IF q = "S" THEN bnd ELSE {}),
+                                                r |-> (q # "S" /\ Shaped(s, 1))])>>)
 =============================================================================
